@@ -84,15 +84,28 @@ func StartExec(envName, testName string) (*Exec, error) {
 
 // Do sends one command and waits for the response.
 func (e *Exec) Do(cmd map[string]any, timeout time.Duration) (*ExecResp, error) {
+	b, _ := json.Marshal(cmd)
+	line, err := e.DoRaw(b, timeout)
+	if err != nil {
+		return nil, err
+	}
+	var r ExecResp
+	if err := json.Unmarshal(line, &r); err != nil {
+		return nil, fmt.Errorf("bad executor response: %v", err)
+	}
+	return &r, nil
+}
+
+// DoRaw sends one JSON line and returns the next JSON line the executor prints.
+func (e *Exec) DoRaw(req []byte, timeout time.Duration) ([]byte, error) {
 	e.mu.Lock()
 	defer e.mu.Unlock()
-	b, _ := json.Marshal(cmd)
-	if _, err := e.in.Write(append(b, '\n')); err != nil {
+	if _, err := e.in.Write(append(append([]byte(nil), req...), '\n')); err != nil {
 		return nil, ErrExecDied
 	}
 	type res struct {
-		r   *ExecResp
-		err error
+		line []byte
+		err  error
 	}
 	ch := make(chan res, 1)
 	go func() {
@@ -105,19 +118,15 @@ func (e *Exec) Do(cmd map[string]any, timeout time.Duration) (*ExecResp, error) 
 			if len(line) == 0 || line[0] != '{' {
 				continue // test framework chatter
 			}
-			var r ExecResp
-			if err := json.Unmarshal(line, &r); err != nil {
-				continue
-			}
-			ch <- res{&r, nil}
+			ch <- res{line, nil}
 			return
 		}
 	}()
 	select {
 	case r := <-ch:
-		return r.r, r.err
+		return r.line, r.err
 	case <-time.After(timeout):
-		return nil, fmt.Errorf("executor did not answer %q within %v", cmd["cmd"], timeout)
+		return nil, fmt.Errorf("executor did not answer within %v", timeout)
 	}
 }
 
